@@ -257,13 +257,22 @@ def run_oracle(rep, n, categories, configs=None, prefix='py'):
         nss = [d[1] for d in m if d[0] == 'ns']
         if nss and rep.bounded['evaluations'] % 4 == 0:
             tops.append(('', nss[0]))
-        for top in tops:
+        runs = [(top, ('',)) for top in tops]
+        if 'ignore' in categories or 'presence' in categories:
+            cls = [r for r in expected(m) if r[0] == 'class']
+            enum_cls = {r[1][1] for r in expected(m) if r[0] == 'enum' and r[1][0] == 'class'}
+            cls = [r for r in cls if r[2] not in enum_cls]          # known finding: enums of an ignored class stay
+            if cls:
+                multi = [r for r in cls if ', ' in r[3]]
+                pick = (multi or cls)[rep.bounded['evaluations'] % len(multi or cls)]
+                runs.append((('',), (pick[3],)))
+        for top, ignore in runs:
             try:
-                out = generate_pybind(text, top=top)
+                out = generate_pybind(text, top=top, ignore=ignore)
             except Exception as e:
                 rep.bounded['skipped'] += 1
                 continue
-            rep.bounded['distinct'].add(hash((text, top)))
+            rep.bounded['distinct'].add(hash((text, top, ignore)))
             if len(rep.bounded['samples']) < 2:
                 rep.bounded['samples'].append(dict(input=text[:300], top=list(top)))
             try:
@@ -271,11 +280,11 @@ def run_oracle(rep, n, categories, configs=None, prefix='py'):
             except Unreadable as e:
                 if 'readable' in categories:
                     rep.violation(prefix + ':unreadable:' + str(e)[:40], 'generated pybind text is malformed: %s' % e,
-                                  dict(kind='pybind-e2e', input=text, top=list(top), message=str(e)))
+                                  dict(kind='pybind-e2e', input=text, top=list(top), ignore=list(ignore), message=str(e)))
                 continue
-            for cat, msg in diff_categories(got, expected(m, top)):
+            for cat, msg in diff_categories(got, expected(m, top, tuple(x for x in ignore if x))):
                 if cat in categories:
-                    rep.violation('%s:%s:%s' % (prefix, cat, msg[:50]), msg, dict(kind='pybind-e2e', input=text, top=list(top), message=msg))
+                    rep.violation('%s:%s:%s' % (prefix, cat, msg[:50]), msg, dict(kind='pybind-e2e', input=text, top=list(top), ignore=list(ignore), message=msg))
     rep.bounded['excluded_by_known_finding'] = dict(excluded)
 
 
@@ -291,7 +300,7 @@ def replay_pybind(obj):
         print('observed: malformed output:', e)
         return 1
     m = abs_module(ip.Module.parseString(text))
-    bad = diff_categories(got, expected(m, tuple(obj.get('top', ['']))))
+    bad = diff_categories(got, expected(m, tuple(obj.get('top', [''])), tuple(x for x in obj.get('ignore', []) if x)))
     for cat, msg in bad:
         print('observed:', cat, msg)
     return 1 if bad else 0
